@@ -204,15 +204,78 @@ def h_repeat(a, inst):
     return same_events(got, exp) and subs == esubs
 
 
+# ------------------------------------------------------------------ synchronous first source, re-entrant chaining
+from reactivex.scheduler import ImmediateScheduler  # noqa: E402
+from reactivex.subject import Subject  # noqa: E402
+
+SYNC_SHAPES = {
+    "concat": (lambda first, second: reactivex.concat(first, second), 1),
+    "op_concat": (lambda first, second: first.pipe(ops.concat(second)), 1),
+    "concat_with_iterable": (lambda first, second: reactivex.concat_with_iterable([first, second]), 1),
+    "start_with": (lambda first, second: second.pipe(ops.start_with(1, 2)), 0),
+    "catch": (lambda first, second: first.pipe(ops.catch(second)), 2),
+    "catch_with_iterable": (lambda first, second: reactivex.catch_with_iterable([first, second]), 2),
+    "on_error_resume_next": (lambda first, second: reactivex.on_error_resume_next(first, second), 3),
+    "for_in": (lambda first, second: reactivex.for_in([0, 1], lambda i: (first, second)[i]), 1),
+}
+
+
+@harness(instances=lambda tier: [{"shape": s} for s in SYNC_SHAPES], n2=I(0, 2), term1=I(1, 2), term2=I(0, 2), imm=I(0, 1), timeout=(60, 600), stock=False)
+def h_sync_first(a, inst):
+    """the first source emits 1, 2 and terminates synchronously inside its subscribe; the second is a Subject that is live
+    afterwards.  Subscribed on the default (trampoline) scheduler or with an ImmediateScheduler (re-entrant chaining: the next
+    source is subscribed from inside the first one's termination).  The result is the concatenation, and the second source's
+    later elements and its termination are not lost"""
+    build, cont = SYNC_SHAPES[inst["shape"]]
+    e1 = Injected("first")
+
+    def sub1(observer, scheduler=None):
+        observer.on_next(1)
+        observer.on_next(2)
+        if a.term1 == 1:
+            observer.on_completed()
+        else:
+            observer.on_error(e1)
+        return reactivex.disposable.Disposable()
+
+    first = reactivex.Observable(sub1) if cont else None
+    second = Subject()
+    obs = build(first, second)
+    log = []
+    kw = {"scheduler": ImmediateScheduler()} if a.imm else {}
+    obs.subscribe(lambda v: log.append(("N", v)), lambda e: log.append(("E", e)), lambda: log.append(("C",)), **kw)
+    for i in range(a.n2):
+        second.on_next(10 + i)
+    e2 = Injected("second")
+    if a.term2 == 1:
+        second.on_completed()
+    elif a.term2 == 2:
+        second.on_error(e2)
+    exp = [("N", 1), ("N", 2)]
+    goes_on = cont == 0 or cont == 3 or cont == a.term1
+    if goes_on:
+        exp += [("N", 10 + i) for i in range(a.n2)]
+        if a.term2 == 1:
+            exp.append(("C",))
+        elif a.term2 == 2:
+            exp.append(("C",) if cont == 3 else ("E", e2))
+    else:
+        exp.append(("C",) if a.term1 == 1 else ("E", e1))
+    cover("ran")
+    return log == exp
+
+
 ENCODED = ["reactivex/observable/concat.py", "reactivex/observable/catch.py", "reactivex/observable/onerrorresumenext.py",
            "reactivex/operators/_catch.py", "reactivex/operators/_repeat.py", "reactivex/operators/_retry.py",
            "reactivex/operators/_whiledo.py", "reactivex/operators/_dowhile.py", "reactivex/operators/_startswith.py",
            "reactivex/operators/_concat.py", "reactivex/operators/_onerrorresumenext.py"]
 BOUNDS = {"quick": "lists of 1..3 cold sources with 1 element each (and 2 sources with 2 elements), gaps and terminal gaps in [0,2], "
                    "terminal kind completed/error per source; repeat/retry/while_do/do_while counts in [0,3] over a source with "
-                   "1..2 elements, unbounded repeat()/retry() cut by take(c), c in [0,3]",
+                   "1..2 elements, unbounded repeat()/retry() cut by take(c), c in [0,3]; 8 chaining shapes whose first source terminates "
+                   "synchronously inside subscribe and whose second source is a Subject emitting 0..2 elements afterwards, "
+                   "subscribed on the default scheduler or with ImmediateScheduler (re-entrant chaining)",
           "thorough": "same with the thorough per-instance budget"}
-ASSUMES = ["Tick/Span time stub", "for_in is concat_with_iterable over a mapped list (covered through concat_with_iterable)",
+ASSUMES = ["Tick/Span time stub", "for_in is exercised in the synchronous-first-source harness and in C04",
            "the next source is subscribed in the same tick in which the previous one terminated"]
 MANIFEST = {
     "text": "Bounded symbolic model checking: source timelines, terminal kinds and counts are solver variables; the output must be "
